@@ -90,7 +90,7 @@ def slot(ctx, report, rule, facts, config):
         return c is not None and c.trait == A.T_ACCESSOR and c.name == which
 
     for e in rets:
-        events = e.path.events
+        events = Q.fold_extend_loops(ev, e.path.events)   # `for x in new { if !list.contains(&x) { list.push(x) } }` is an extend
         its = [x for x in events if x[0] == "call" and x[2].key == it_body.key]
         if len(its) != 1:
             report.ob(rule, "path-not-decided-by-target", False, "a normal path of insert asks insertion_target %d times" % len(its), site=body.loc(), config=config)
@@ -219,6 +219,10 @@ def slot(ctx, report, rule, facts, config):
                         return True
                     if _is_decr(t, lt) and pos > grow_pos:
                         return True
+                # the growing call itself may hand back the position of what it appended
+                gx = events[grow_pos]
+                if gx[0] == "call" and t == gx[4] and gx[2].name in ("add_group", "add_stage") and _returns_appended_index(ctx, facts, gx[2].name):
+                    return True
                 return False
 
             if variant == "Group":
@@ -365,7 +369,7 @@ def lockstep(ctx, report, rule, facts, config):
             if ctor == "add_group":
                 report.ob(rule, "add_group/index/%s" % tab, idx_ok, "add_group appends to %s[stage] with the `stage` parameter" % tab if idx_ok else
                           "add_group appends to %s at another index than the `stage` parameter" % tab, site=body_.loc(), config=config)
-    report.floor(rule, "shape-changing calls on lock-step tables", n_mut, 14, config=config)
+    report.floor(rule, "shape-changing calls on lock-step tables", n_mut, 10, config=config)   # the ten appends of add_stage and add_group; the four of insert may sit in a helper
     # moves out of the tables: only StagesBuilder::build may move `stages` out
     n_moves = 0
     for b in sorted(facts.bodies.values(), key=lambda b: b.key):
@@ -545,6 +549,38 @@ def pool_inventory(ctx, report, rule, facts, config, crossing_only=False):
 
 
 # ------------------------------------------------------------------ BUILD wiring
+
+def _returns_appended_index(ctx, facts, name):
+    """add_stage / add_group return the position of the element they append: the length of one of the lockstep tables read
+    before their first push, or that length minus one read after their last push."""
+    from . import semq as Q
+    from .sem import _is_decr
+    b = facts.one(A.SB + "::" + name)
+    try:
+        ev, ends = Q.sem(ctx, facts, b)
+    except Exception:
+        return False
+    rets = Q.returns(ends)
+    if not rets:
+        return False
+    want_idx = [("param", 2)] if name == "add_group" else []
+    for e in rets:
+        evs = e.path.events
+        pushes = [i for i, x in enumerate(evs) if x[0] == "call" and not x[2].local and x[2].name == "push"]
+        if not pushes or [x for x in evs if x[0] == "loop"]:
+            return False
+        ok = False
+        for i, x in enumerate(evs):
+            if x[0] == "call" and x[2].name == "len" and not x[2].local and x[3]:
+                f_, i_, b_ = Q.table_access(ev, x[3][0])
+                cf_ = Q.crate_fields(f_)
+                if b_ == ("param", 1) and cf_ and cf_[0][0] == A.SB and [Q.strip(ev, k) for k in i_] == want_idx:
+                    if (e.ret == x[4] and i < pushes[0]) or (_is_decr(e.ret, x[4]) and i > pushes[-1]):
+                        ok = True
+        if not ok:
+            return False
+    return True
+
 
 def registers_thread_local(ctx, facts, b):
     """On every way through `b` the builder's thread-local list receives exactly one `push(Box::new(<a parameter>))` and no
